@@ -33,11 +33,21 @@ type Choice struct {
 	C   int    // index into the ordered option list
 	N   int    // number of options (>=2)
 	Cur bool   // the running goroutine was among the options (so C!=0 is a preemption)
+	Map bool   // a map-order choice point (vmap.Keys): C!=0 is an order deviation
 	Sig uint32 // hash of (running goroutine, its pending operation, option ids)
 }
 
+// Cost is the number of preemptions this choice costs (0 or 1).
 func (c Choice) Cost() int {
-	if c.Cur && c.C != 0 {
+	if c.Cur && !c.Map && c.C != 0 {
+		return 1
+	}
+	return 0
+}
+
+// MapCost is the number of map-order deviations this choice costs (0 or 1).
+func (c Choice) MapCost() int {
+	if c.Map && c.C != 0 {
 		return 1
 	}
 	return 0
@@ -231,7 +241,7 @@ func (sc *sched) choose(me *g) *g {
 			sc.diverge(fmt.Sprintf("choice %d at point %d out of range (options %d)", p.C, k, len(opts)))
 			return opts[0]
 		}
-		if p.N != 0 && (p.N != ch.N || p.Sig != ch.Sig || p.Cur != ch.Cur) {
+		if p.N != 0 && (p.N != ch.N || p.Sig != ch.Sig || p.Cur != ch.Cur || p.Map) {
 			sc.diverge(fmt.Sprintf("point %d differs from the recorded one: recorded n=%d cur=%v sig=%08x, now n=%d cur=%v sig=%08x (g%d %s)",
 				k, p.N, p.Cur, p.Sig, ch.N, ch.Cur, ch.Sig, me.id, me.op))
 			return opts[0]
@@ -309,6 +319,35 @@ func Go(f func()) {
 	sc.gs = append(sc.gs, ng)
 	sc.live++
 	go sc.wrapper(ng, f)
+}
+
+// Choose is a data choice point of the running goroutine (used by vmap.Keys): n options,
+// option 0 is the default. It never switches goroutines.
+func Choose(label string, n int) int {
+	sc := s
+	if sc == nil || sc.aborting || n < 2 {
+		return 0
+	}
+	h := uint32(2166136261)
+	for i := 0; i < len(label); i++ {
+		h ^= uint32(label[i])
+		h *= 16777619
+	}
+	h = fnv(h, uint32(n))
+	k := len(sc.res.Trace)
+	ch := Choice{C: 0, N: n, Map: true, Sig: h}
+	if k < len(sc.prefix) {
+		p := sc.prefix[k]
+		if p.C < 0 || p.C >= n {
+			sc.diverge(fmt.Sprintf("map choice %d at point %d out of range (options %d)", p.C, k, n))
+		} else if p.N != 0 && (p.N != n || p.Sig != h || !p.Map) {
+			sc.diverge(fmt.Sprintf("point %d differs from the recorded one: recorded n=%d map=%v sig=%08x, now %s n=%d sig=%08x", k, p.N, p.Map, p.Sig, label, n, h))
+		} else {
+			ch.C = p.C
+		}
+	}
+	sc.res.Trace = append(sc.res.Trace, ch)
+	return ch.C
 }
 
 // Count bumps a named per-execution counter (rewriter hook; not a scheduling point).
